@@ -28,3 +28,4 @@ def run(prog: Program, res: Result, tier: str) -> None:
     iso.check_stereo_index(prog, res)
     iso.check_prechecks(prog, res)
     iso.check_label_type(prog, res)
+    iso.check_symmetry_number(prog, res)
